@@ -434,13 +434,13 @@ func genTables(r *RNG, o histOpts) []*hTable {
 				nc = o.maxCols
 			}
 		}
-		t := &hTable{id: uint64(100 + i*7), db: "db" + randName(r, r.Intn(5)), name: "t" + strconv.Itoa(i) + randName(r, r.Intn(6))}
+		t := &hTable{id: uint64(100 + i*7), db: "db" + randName(r, r.Intn(5)), name: "t" + strconv.Itoa(i) + "-" + randName(r, r.Intn(6))}
 		if r.Chance(1, 5) {
 			t.id = uint64(r.U64() & 0xffffffff) // fits both id widths
 		}
 		for c := 0; c < nc; c++ {
 			k := randColumn(r, o.allowTZ)
-			t.cols = append(t.cols, hCol{typ: k.typ, md: k.md, nullable: r.Bool(), name: "c" + strconv.Itoa(c) + randName(r, r.Intn(4)),
+			t.cols = append(t.cols, hCol{typ: k.typ, md: k.md, nullable: r.Bool(), name: "c" + strconv.Itoa(c) + "-" + randName(r, r.Intn(4)),
 				unsigned: r.Chance(1, 3) && (k.typ == 1 || k.typ == 2 || k.typ == 9 || k.typ == 3 || k.typ == 8)})
 		}
 		ts = append(ts, t)
